@@ -5,7 +5,8 @@
    accessor i; queue capacity 2^bits) under SOME schedule of the client threads and the collector thread" of the
    machine whose keep_reclaim loop condition is kc:
      src_kc   = the condition regenerated from the current source (Gen_garbage_collector.keep_looping),
-     fixed_kc = `running || index < tasks.size()` (the proposed repair).
+     fixed_kc = `running || index < tasks.size()` (the form the source has since fix e0cd24e),
+     orig_kc  = `running` (the loop before that fix).
    Theorems quantified over kc hold for both.  So every theorem is quantified over all programs, thread counts,
    capacities, batch boundaries and schedules (incl. every phase of the collector's poll/back-off loop).
    A reclaimer is identified by the queue ticket its retire() call took (one fetch_add per call,
@@ -18,25 +19,15 @@
      "blocks while the queue is full and resumes without losing tasks"  c10_retire_blocks_iff_queue_full,
                                        c10_queue_never_over_capacity, c10_blocked_retire_resumes, c10_no_task_lost.
      "no later than the return of stop() / the destructor"
-          FALSE of the current source: c10_all_before_stop_refuted (finding F2, stop() while a region is open;
-          18-step witness, replayed on the real code by checks/c10.py case d.f2) and
-          c10_retire_racing_stop_refuted (a retire() overlapping stop() is discarded behind the marker).
-          TRUE of the repaired loop for every task that is not queued behind an earlier stop marker:
-          c10_all_before_stop_returns_fixed_loop, and of ANY loop condition of that form:
-          c10_all_before_stop_returns_if_loop_waits (this is what becomes applicable to src_kc after the fix).
-   Not proved: liveness (stop() eventually returns) - only searched for by the scheduler runs / model exploration.
-
-   AFTER the fix `while (running || index < tasks.size())` is committed in /repo only gc_all_before_stop_refuted
-   stops compiling.  Then: (1) delete gc_all_before_stop_refuted from GC/GCProofs.v and
-   c10_all_before_stop_refuted from this file; (2) append to GC/GCProofs.v
-       Lemma src_kc_is_fixed : forall r i n, src_kc r i n = r || Nat.ltb i n.
-       Proof. destruct src_kc_form as [H|H]; [specialize (H false 0%nat 1%nat); vm_compute in H; discriminate | exact H]. Qed.
-       Theorem gc_all_before_stop_src : forall bits progs s, Reach src_kc bits progs s -> stop_complete s.
-       Proof. exact (gc_all_before_stop src_kc src_kc_is_fixed). Qed.
-   and to this file
-       Theorem c10_all_before_stop_returns : forall bits progs s, Reach src_kc bits progs s -> stop_complete s.
-       Proof. exact gc_all_before_stop_src. Qed.
-   (3) turn the first C10 `finding:` line of KNOWN_FINDINGS.txt into a `fixed:` line.  (Tested against a patched copy.) *)
+          TRUE of the current source (fix e0cd24e, `while (running || index < tasks.size())`) for every task that is
+          not queued behind an earlier stop marker: c10_all_before_stop_returns; it rests on src_kc_is_fixed, which
+          stops compiling if the loop condition is changed back.  Generic forms: c10_all_before_stop_returns_if_loop_waits,
+          c10_all_before_stop_returns_fixed_loop.
+          Regression witness of finding F2 (loop as it was, `while (running)`): c10_as_was_loop_refuted, replayed on
+          the real code by checks/c10.py case d.f2 (now a plain regression case).
+          STILL FALSE of the current source: a retire() overlapping stop() that lands behind the marker is discarded
+          (c10_retire_racing_stop_refuted; KNOWN_FINDINGS sig retire-overlapping-stop-dropped).
+   Not proved: liveness (stop() eventually returns) - only searched for by the scheduler runs / model exploration. *)
 From Coq Require Import ZArith List Bool Sorted.
 Require Import Verif.Gen.Gen_garbage_collector Verif.Conc.Machine Verif.GC.GCModel Verif.GC.GCProofs.
 Import ListNotations.
@@ -108,14 +99,18 @@ Theorem c10_source_loop_form : (forall r i n, src_kc r i n = r) \/ (forall r i n
 Proof. exact src_kc_form. Qed.
 Print Assumptions c10_source_loop_form.
 
-(* FINDING F2: the current source lets stop() return with an uncalled reclaimer (single stop, region closed later) *)
-Theorem c10_all_before_stop_refuted :
-  exists bits progs s, single_stop progs /\ Reach src_kc bits progs s /\ gver s < STOP_EPOCH /\ all_done s = true /\
-                       ~ stop_complete s.
-Proof. exact gc_all_before_stop_refuted. Qed.
-Print Assumptions c10_all_before_stop_refuted.
+(* the positive theorem for the CURRENT source *)
+Theorem c10_all_before_stop_returns : forall bits progs s, Reach src_kc bits progs s -> stop_complete s.
+Proof. exact gc_all_before_stop_src. Qed.
+Print Assumptions c10_all_before_stop_returns.
 
-(* FINDING: a retire() that overlaps stop() is popped together with the marker and discarded (no region involved) *)
+(* regression witness of finding F2 (fixed): the loop as it was lets stop() return with an uncalled reclaimer *)
+Example c10_as_was_loop_refuted :
+  exists bits progs s, single_stop progs /\ Reach orig_kc bits progs s /\ gver s < STOP_EPOCH /\ all_done s = true /\
+                       ~ stop_complete s.
+Proof. exact gc_as_was_loop_refuted. Qed.
+
+(* KNOWN FINDING (current source): a retire() that overlaps stop() is popped together with the marker and discarded (no region involved) *)
 Theorem c10_retire_racing_stop_refuted :
   exists bits progs s x, no_regions progs /\ Reach src_kc bits progs s /\ all_done s = true /\ coll_quiet s = true /\
     In (Some x) (qall s) /\ is_marker x = false /\ ~ In x (map fst (calls s)) /\ In x (gone s).
